@@ -750,7 +750,7 @@ def replay(ctx: core.Ctx, rp: dict) -> int:
             df.show(*act[1:2])
         except Exception as ex:
             print("show raised", type(ex).__name__, ex)
-    print("recorded when found:", r.get("returned"))
+    print("recorded when found:", r.get("returned") or rp.get("returned_before_fix"))
     if rp.get("pyspark") or r.get("pyspark"):
         print("PySpark 3.5.9:", rp.get("pyspark") or r.get("pyspark"))
     return 0
